@@ -266,6 +266,75 @@ func kindsOfCase(info *types.Info, cc *ast.CaseClause) []string {
 	return out
 }
 
+// typeWriterCall: call is a call of the type writer tw, or of a forwarder - a function or method of the generator whose
+// body is one call of the type writer (or of another forwarder) that hands its own parameters through, such as
+// `func (g *gen) typ(t *idl.Type, tags bool, n int) { writeType(&g.out, t, tags, n) }`. It returns the argument of call
+// that ends up as the type writer's parameter prm (nil if it is not one of call's arguments).
+func typeWriterCall(w *genWalker, tw *ast.FuncDecl, prm types.Object, call *ast.CallExpr, depth int) (bool, ast.Expr) {
+	var fd *ast.FuncDecl
+	switch f := call.Fun.(type) {
+	case *ast.Ident:
+		fd = w.funcs[f.Name]
+	case *ast.SelectorExpr:
+		fd = w.methodDecl(f)
+	}
+	if fd == nil || depth > 3 {
+		return false, nil
+	}
+	argOf := func(d *ast.FuncDecl, obj types.Object, c *ast.CallExpr) ast.Expr {
+		pi := 0
+		for _, fld := range d.Type.Params.List {
+			for _, pn := range fld.Names {
+				if w.info.Defs[pn] == obj && pi < len(c.Args) {
+					return c.Args[pi]
+				}
+				pi++
+			}
+		}
+		return nil
+	}
+	if fd == tw {
+		if prm == nil {
+			return true, nil
+		}
+		return true, argOf(tw, prm, call)
+	}
+	if fd.Body == nil || len(fd.Body.List) != 1 {
+		return false, nil
+	}
+	es, ok := fd.Body.List[0].(*ast.ExprStmt)
+	if !ok {
+		return false, nil
+	}
+	inner, ok := es.X.(*ast.CallExpr)
+	if !ok {
+		return false, nil
+	}
+	is, innerArg := typeWriterCall(w, tw, prm, inner, depth+1)
+	if !is {
+		return false, nil
+	}
+	// the inner argument must be one of the forwarder's own parameters
+	if id, ok := innerArg.(*ast.Ident); ok {
+		return true, argOf(fd, w.info.Uses[id], call)
+	}
+	return true, innerArg // a constant passed by the forwarder itself
+}
+
+// containsTypeWriterCall: the first call of the type writer (direct or through a forwarder) below n.
+func containsTypeWriterCall(w *genWalker, tw *ast.FuncDecl, n ast.Node) *ast.CallExpr {
+	var found *ast.CallExpr
+	ast.Inspect(n, func(x ast.Node) bool {
+		if c, ok := x.(*ast.CallExpr); ok && found == nil {
+			if is, _ := typeWriterCall(w, tw, nil, c, 0); is {
+				found = c
+			}
+		}
+		return found == nil
+	})
+	return found
+}
+
 func containsCallTo(n ast.Node, name string) *ast.CallExpr {
 	var found *ast.CallExpr
 	ast.Inspect(n, func(x ast.Node) bool {
@@ -293,7 +362,7 @@ func usesIdent(info *types.Info, n ast.Node, obj types.Object) bool {
 // typeWriter: the generator function with a *idl.Type parameter and a bool parameter that switches on the kind.
 func typeWriter(p *Prog, w *genWalker) (*ast.FuncDecl, types.Object, *ast.SwitchStmt) {
 	info := p.Pkgs[pkgGen].TypesInfo
-	for _, fd := range w.funcs {
+	for _, fd := range w.decls() {
 		if fd.Type.Params == nil {
 			continue
 		}
@@ -354,7 +423,7 @@ func conversionRules(r *Run, p *Prog, w *genWalker) {
 	r.Ob("G2", tw.Name.Name, "the type writer's flag-dependent kinds can be derived", tw.Pos(), len(depL) > 0, "no arm of the type writer uses the tagged/untagged flag")
 	// conversion sites: switches on <x>.Type.Kind outside the type writer whose arms call the type writer
 	n := 0
-	for name, fd := range w.funcs {
+	for name, fd := range w.decls() {
 		if fd == tw || fd.Body == nil {
 			continue
 		}
@@ -374,13 +443,58 @@ func conversionRules(r *Run, p *Prog, w *genWalker) {
 						continue
 					}
 					for _, st := range cc.Body {
-						if containsCallTo(st, tw.Name.Name) != nil {
+						if containsTypeWriterCall(w, tw, st) != nil {
 							conv = append(conv, kindsOfCase(info, cc)...)
 							convBody = cc.Body
 						}
 					}
 				}
 				s2 = y
+			case *ast.BlockStmt:
+				// if !<kind predicate>(x.Type) { plain assignment; continue }  ...conversion...: the conversion is what
+				// follows the early exit in the same block
+				for i, st := range y.List {
+					ifs, ok := st.(*ast.IfStmt)
+					if !ok || ifs.Else != nil || len(ifs.Body.List) == 0 {
+						continue
+					}
+					neg, ok := ifs.Cond.(*ast.UnaryExpr)
+					if !ok || neg.Op != token.NOT {
+						continue
+					}
+					call, ok := neg.X.(*ast.CallExpr)
+					if !ok || len(call.Args) != 1 {
+						continue
+					}
+					id, ok := call.Fun.(*ast.Ident)
+					if !ok {
+						continue
+					}
+					kinds, ok := kindPredicate(info, w.funcs[id.Name])
+					if !ok {
+						continue
+					}
+					switch last := ifs.Body.List[len(ifs.Body.List)-1].(type) {
+					case *ast.BranchStmt:
+						if last.Tok != token.CONTINUE {
+							continue
+						}
+					case *ast.ReturnStmt:
+					default:
+						continue
+					}
+					rest := y.List[i+1:]
+					for _, st2 := range rest {
+						if containsTypeWriterCall(w, tw, st2) != nil {
+							conv = kinds
+							convBody = rest
+						}
+					}
+					s2 = ifs
+				}
+				if convBody == nil {
+					return true
+				}
 			case *ast.IfStmt:
 				// if <kind predicate>(x.Type) { ...conversion... } else { plain assignment }: the predicate is a function
 				// of the generator whose body is `switch t.Kind { case K...: return true }; return false`
@@ -397,7 +511,7 @@ func conversionRules(r *Run, p *Prog, w *genWalker) {
 					return true
 				}
 				for _, st := range y.Body.List {
-					if containsCallTo(st, tw.Name.Name) != nil {
+					if containsTypeWriterCall(w, tw, st) != nil {
 						conv = kinds
 						convBody = y.Body.List
 					}
@@ -418,7 +532,7 @@ func conversionRules(r *Run, p *Prog, w *genWalker) {
 			// G2b parenthesised: text before the type ends with "(" and text after begins with ")("
 			var before, after string
 			for i, st := range convBody {
-				if containsCallTo(st, tw.Name.Name) == nil {
+				if containsTypeWriterCall(w, tw, st) == nil {
 					continue
 				}
 				if i > 0 {
@@ -559,13 +673,14 @@ func importRules(r *Run, p *Prog, w *genWalker, root string) {
 	// the decisions may sit in the template function or in a helper it calls (every function of the generator is looked at)
 	var bodies []ast.Node
 	var names []string
-	for name := range w.funcs {
+	allDecls := w.decls()
+	for name := range allDecls {
 		names = append(names, name)
 	}
 	sort.Strings(names)
 	for _, name := range names {
-		if w.funcs[name].Body != nil {
-			bodies = append(bodies, w.funcs[name].Body)
+		if allDecls[name].Body != nil {
+			bodies = append(bodies, allDecls[name].Body)
 		}
 	}
 	inspect := func(n ast.Node) bool {
@@ -574,15 +689,39 @@ func importRules(r *Run, p *Prog, w *genWalker, root string) {
 			// table form: for _, e := range []struct{ name, path string }{{"json", "\"encoding/json\""}, ...} {
 			//                 if used[e.name] { imports = append(imports, e.path) } }
 			cl, ok := x.X.(*ast.CompositeLit)
+			if id, isId := x.X.(*ast.Ident); isId && !ok {
+				// the table is a package-level variable with a composite-literal initialiser
+				if init := w.packageVarInit(info.Uses[id]); init != nil {
+					cl, ok = init.(*ast.CompositeLit)
+				}
+			}
 			ev, ok2 := x.Value.(*ast.Ident)
-			if !ok || !ok2 || len(x.Body.List) != 1 {
+			if !ok || !ok2 || len(x.Body.List) == 0 || len(x.Body.List) > 2 {
 				return true
 			}
+			// `if used[e.name] { append }`, or `if !used[e.name] { continue }; append`
 			ifs, ok := x.Body.List[0].(*ast.IfStmt)
 			if !ok || ifs.Else != nil {
 				return true
 			}
-			ix, ok := ifs.Cond.(*ast.IndexExpr)
+			appendIn := ast.Node(ifs.Body)
+			negated := false
+			if len(x.Body.List) == 2 {
+				u, isNot := ifs.Cond.(*ast.UnaryExpr)
+				if !isNot || u.Op != token.NOT || len(ifs.Body.List) != 1 {
+					return true
+				}
+				if br, isBr := ifs.Body.List[0].(*ast.BranchStmt); !isBr || br.Tok != token.CONTINUE {
+					return true
+				}
+				negated = true
+				appendIn = x.Body.List[1]
+			}
+			cond := ifs.Cond
+			if negated {
+				cond = ifs.Cond.(*ast.UnaryExpr).X
+			}
+			ix, ok := cond.(*ast.IndexExpr)
 			if !ok {
 				return true
 			}
@@ -598,14 +737,18 @@ func importRules(r *Run, p *Prog, w *genWalker, root string) {
 			}
 			// the appended member
 			var pathSel *ast.SelectorExpr
-			ast.Inspect(ifs.Body, func(y ast.Node) bool {
+			ast.Inspect(appendIn, func(y ast.Node) bool {
 				if c, ok := y.(*ast.CallExpr); ok {
 					if id, ok := c.Fun.(*ast.Ident); ok && id.Name == "append" && len(c.Args) == 2 {
-						if se, ok := c.Args[1].(*ast.SelectorExpr); ok {
-							if id2, ok := se.X.(*ast.Ident); ok && info.Uses[id2] == info.Defs[ev] {
-								pathSel = se
+						// the appended value is the row's path member, possibly with the quotes added here
+						ast.Inspect(c.Args[1], func(z ast.Node) bool {
+							if se, ok := z.(*ast.SelectorExpr); ok {
+								if id2, ok := se.X.(*ast.Ident); ok && info.Uses[id2] == info.Defs[ev] {
+									pathSel = se
+								}
 							}
-						}
+							return true
+						})
 					}
 				}
 				return true
@@ -969,6 +1112,29 @@ func nullableRules(r *Run, p *Prog, m *idlModel, root string) {
 			}
 		}
 	}
+	// a helper of the generator that receives (part of) a tree node as a parameter is judged where it is inlined into
+	// its callers' views, in the context of the node it is given; its own view has no such context
+	inlinedSomewhere := map[*ssa.Function]bool{}
+	for _, vf := range views {
+		for _, b := range vf.Blocks {
+			for _, in := range b.Instrs {
+				for _, g := range inlinedFrom(in) {
+					inlinedSomewhere[g] = true
+				}
+			}
+		}
+	}
+	paramRooted := func(f *ssa.Function, t string) bool {
+		for _, prm := range f.Params {
+			if strings.Contains(t, "param:"+prm.Name()) {
+				if _, isBuf := prm.Type().(*types.Pointer); isBuf && !strings.Contains(prm.Type().String(), "idl.") {
+					continue
+				}
+				return true
+			}
+		}
+		return false
+	}
 	n := 0
 	for _, f := range views {
 		for _, b := range f.Blocks {
@@ -1024,9 +1190,12 @@ func nullableRules(r *Run, p *Prog, m *idlModel, root string) {
 				if !isNullable {
 					continue
 				}
+				base := strings.TrimPrefix(strip(T.T(fa.X)), "&")
+				if of := origFn(f); of.Object() != nil && !of.Object().Exported() && inlinedSomewhere[of] && paramRooted(f, base) && key == (member{"TypeField", "Type"}) {
+					continue
+				}
 				n++
 				fs := T.FactsAt(b)
-				base := strings.TrimPrefix(strip(T.T(fa.X)), "&")
 				vt := T.T(v)
 				ok2, how := false, ""
 				switch {
